@@ -115,6 +115,7 @@ class World:
         self.clock_sync = None
         self.last_payload = None
         self.in_line_seam = False
+        self.write_cap = 0
         self.opened = []  # relpaths actually opened through the seam (containment tripwire)
 
     # ---------------------------------------------------------------- helpers
@@ -281,6 +282,17 @@ class World:
         kind = self.seam("write", path)
         if kind in ("eio", "enospc"):
             raise OSError(errno.ENOSPC if kind == "enospc" else errno.EIO, "injected " + kind)
+        if kind == "short-writes":
+            # from now on every write() accepts at most `cap` bytes (a slow pipe / nearly full quota)
+            self.write_cap = int(getattr(self, "_arg", None) or 64)
+        if kind is None and self.write_cap and len(data) > self.write_cap:
+            n = _real_os.write(fd, bytes(data[: self.write_cap]))
+            self._stamp_fd(fd)
+            return n
+        if kind == "short-writes" and len(data) > self.write_cap:
+            n = _real_os.write(fd, bytes(data[: self.write_cap]))
+            self._stamp_fd(fd)
+            return n
         if kind in ("short-write", "crash-mid") and len(data) > 1:
             frac = getattr(self, "_arg", None) or 0.5
             n = max(1, min(len(data) - 1, int(len(data) * frac)))
@@ -325,6 +337,15 @@ class World:
             self.after(kind, "rename")
             return dst
         # --- fallback: shutil.copy2(src, dst); os.unlink(src)
+        self.copy_steps(src, dst)
+        k5 = self.seam("unlink", src)
+        _real_os.unlink(src)
+        self.module_writes += 1
+        self.after(k5, "unlink")
+        return dst
+
+    def copy_steps(self, src, dst, stat=True):
+        """shutil.copyfile/copy/copy2, one real step per seam call: open+truncate, chunked writes, copystat"""
         with _real_open(src, "rb") as f:
             data = f.read()
         k2 = self.seam("copy-open", dst)
@@ -351,14 +372,11 @@ class World:
                 self.after(k3, "copy-write")
         finally:
             _real_os.close(out)
-        k4 = self.seam("copy-stat", dst)
-        st = _real_os.stat(src)
-        os.utime(dst, ns=(st.st_atime_ns, st.st_mtime_ns))
-        self.after(k4, "copy-stat")
-        k5 = self.seam("unlink", src)
-        _real_os.unlink(src)
-        self.module_writes += 1
-        self.after(k5, "unlink")
+        if stat:
+            k4 = self.seam("copy-stat", dst)
+            st = _real_os.stat(src)
+            os.utime(dst, ns=(st.st_atime_ns, st.st_mtime_ns))
+            self.after(k4, "copy-stat")
         return dst
 
     def os_open(self, path, flags, mode=0o777, **kw):
@@ -523,6 +541,15 @@ class ShutilFacade:
 
     def move(self, *a, **kw):
         return self._w.move(*a, **kw)
+
+    def copyfile(self, src, dst, **kw):
+        return self._w.copy_steps(src, dst, stat=False)
+
+    def copy(self, src, dst, **kw):
+        return self._w.copy_steps(src, dst, stat=False)
+
+    def copy2(self, src, dst, **kw):
+        return self._w.copy_steps(src, dst, stat=True)
 
     def __getattr__(self, name):
         return getattr(self._real, name)
